@@ -77,10 +77,11 @@ Theorem C04_last_value_wins_partial : forall E usub md sm d slots unions unk m' 
 Proof. exact singular_last_wins. Qed.
 Print Assumptions C04_last_value_wins_partial.
 
-(* the canonical encoding of every canonical message is accepted and read back exactly (C01) *)
+(* the canonical encoding of every canonical message is accepted and read back exactly (C01); up to 268435425 bytes
+   (max_input): beyond, one message could have more members than the parser's 23 slabs hold ("too many fields") *)
 Theorem C04_canonical_encoding_partial : forall (E : env) (m : msg) (b : list Z),
   env_ok E = true -> canon_msg E m = true ->
-  pack_msg E m = Ok b -> Z.of_nat (length b) <= 2147483647 ->
+  pack_msg E m = Ok b -> Z.of_nat (length b) <= 268435425 ->
   unpack_top E (m_desc m) b = Ok m.
 Proof.
   intros E m b EO C Hp Hl. unfold unpack_top.
